@@ -185,5 +185,12 @@ def encoders(ctx, F, r):
                 wins.add((m["i"], layout.add(m["i"], C(1))))
             elif find_all(n(pl), lambda y: y == P(1)):
                 bad.append("store " + sym.fmt(n(pl)))
-    ok = not bad and wins in ({(C(0), C(2))}, {(C(0), C(1)), (C(1), C(2))})
+    # the union of the constant windows is exactly dst[0..2]
+    cells = set()
+    for lo, hi in wins:
+        if lo[0] != "const" or hi is None or hi[0] != "const":
+            bad.append("non-constant window %s..%s" % (sym.fmt(lo), sym.fmt(hi) if hi else "end"))
+            continue
+        cells |= set(range(lo[1], hi[1]))
+    ok = not bad and cells == {0, 1}
     ctx.ob(r, ("encode_rev_1", "writes-dst[0..2]"), ok, "encode_rev_1 writes windows %s (%s); reference dst[0..2] only" % (sorted(map(str, wins)), bad), cfg=F.key, where=b.where())
